@@ -62,7 +62,7 @@ func c12(r *rep.Run) {
 		max = 7
 		r.SetBudget(1800e9)
 	}
-	r.Rule = "every program up to the node bound over an alphabet with unary/binary/ternary registered operators and fast/binary/n-ary builtins x 16 optimisation subsets x {ReportEvent, Debug} x every binding incl. fetch failures x {Eval, TryEval}; events are read only AFTER the evaluation has finished (the most retentive consumer). Oracles: result and Dump equal the event-free compilation; OP_EXEC events of registered operators equal the harness's own call log taken at call time (name, arguments, result, error, order); OP_EXEC events of builtins other than and/or equal the application sequence of reference evaluation (R1) of the Dump tree (Eval mode); every OP_EXEC event is truthful (Res/Err is what the operator gives on Params); LOOP positions strictly increase; no two events' Stack/Params slices share memory; every value on a LOOP stack was produced earlier in this evaluation. Plus: a scribbling synchronous consumer must not change results, and every consumer timing (scheduler: consumer takes each event at any callback point after its emission) sees the ground truth. non-trivial = executions with at least two OP_EXEC events"
+	r.Rule = "every program up to the node bound over an alphabet with unary/binary/ternary registered operators and fast/binary/n-ary builtins x 16 optimisation subsets x {ReportEvent, Debug} x every binding incl. fetch failures x {Eval, TryEval}; events are read only AFTER the evaluation has finished and are kept and re-read after the NEXT evaluation of the same compiled program (the most retentive consumer). Oracles: result and Dump equal the event-free compilation; OP_EXEC events of registered operators equal the harness's own call log taken at call time (name, arguments, result, error, order); OP_EXEC events of builtins other than and/or equal the application sequence of reference evaluation (R1) of the Dump tree (Eval mode); every OP_EXEC event is truthful (Res/Err is what the operator gives on Params); LOOP positions strictly increase; no two events' Stack/Params slices share memory; every value on a LOOP stack was produced earlier in this evaluation. Plus: a scribbling synchronous consumer must not change results, and every consumer timing (scheduler: consumer takes each event at any callback point after its emission) sees the ground truth. non-trivial = executions with at least two OP_EXEC events"
 	r.Assume = []string{"IsFastOp and the exact set of LOOP events are not asserted (the statement does not define them)",
 		"consumer timings below callback granularity are represented by the two extremes: reading at the very end (exhaustive) and a free-running scribbling synchronous consumer (auxiliary)"}
 	r.Cov["bounds"] = map[string]int{"max_nodes": max}
@@ -111,6 +111,10 @@ func c12(r *rep.Run) {
 		}
 		vals := make([]interface{}, len(p.Vars))
 		var nb, tr, ex, nt int64
+		// events of the PREVIOUS evaluation of each compiled program are
+		// retained and re-read after the next one (a consumer may keep them)
+		kept := make([][]eval.Event, len(evented))
+		keptSnap := make([][]string, len(evented))
 		drive.ForBindings(Doms(p.Vars, true), vals, func() bool {
 			nb++
 			for mode := 0; mode < 2; mode++ { // 0 Eval, 1 TryEval (all available)
@@ -143,6 +147,17 @@ func c12(r *rep.Run) {
 					if !drive.SameOutcome(got, want) {
 						r.Violate("result-changed", p.Src+c.o.String(), sprintf("with events the result is %s, without %s", got, want), d(nil))
 						continue
+					}
+					for x, ev := range kept[k] {
+						if now := deepCopyEvent(ev); now != keptSnap[k][x] {
+							r.Violate("retained-event-changed", p.Src+c.o.String(), "an event retained from the previous evaluation of the same program changed during this evaluation", d(map[string]interface{}{"event_was": keptSnap[k][x], "event_is": now}))
+							break
+						}
+					}
+					kept[k] = append(kept[k][:0], h.Events...)
+					keptSnap[k] = keptSnap[k][:0]
+					for _, ev := range h.Events {
+						keptSnap[k] = append(keptSnap[k], deepCopyEvent(ev))
 					}
 					// --- events, read after the evaluation finished ---
 					var opEvents []eval.OpEventData
